@@ -316,15 +316,16 @@ func c03DescUsers(us []c03User) string {
 // generators
 // ---------------------------------------------------------------------------------------------
 
-// c03GenUsers draws 2..5 users. names = the path names this case will use (permissions are biased towards them).
+// c03GenUsers draws 2..5 users (the first one always has a name). Exact-path permissions are biased towards the
+// names this case uses: readNames for `read`, pubNames for `publish`.
 // plainOnly: RTSP digest is enabled, the configuration may then only hold plain, non-empty passwords.
-func c03GenUsers(t *rapid.T, names []string, plainOnly bool) []c03User {
+func c03GenUsers(t *rapid.T, readNames, pubNames []string, plainOnly bool) []c03User {
 	n := rapid.IntRange(2, 5).Draw(t, "nusers")
 	users := make([]c03User, n)
 	for i := range users {
 		l := fmt.Sprintf("u%d.", i)
 		u := &users[i]
-		if rapid.IntRange(0, 4).Draw(t, l+"any") == 0 {
+		if i > 0 && rapid.IntRange(0, 4).Draw(t, l+"any") == 0 {
 			u.anyUser = true
 			u.passEnc = "empty"
 		} else {
@@ -342,16 +343,20 @@ func c03GenUsers(t *rapid.T, names []string, plainOnly bool) []c03User {
 		if rapid.IntRange(0, 2).Draw(t, l+"hasNets") == 0 {
 			u.nets = rapid.SliceOfN(rapid.SampledFrom(c03NetPool()), 1, 2).Draw(t, l+"nets")
 		}
-		np := rapid.IntRange(1, 4).Draw(t, l+"nperms")
+		np := rapid.IntRange(1, 5).Draw(t, l+"nperms")
 		for j := 0; j < np; j++ {
 			pl := fmt.Sprintf("%sp%d.", l, j)
 			var p c03Perm
 			p.action = rapid.SampledFrom([]string{"publish", "publish", "publish", "read", "read", "read", "playback", "api"}).Draw(t, pl+"action")
+			own := pubNames
+			if p.action != "publish" {
+				own = readNames
+			}
 			switch rapid.IntRange(0, 9).Draw(t, pl+"kind") {
 			case 0:
 				p.path = ""
 			case 1, 2, 3, 4:
-				p.path = rapid.SampledFrom(names).Draw(t, pl+"exact")
+				p.path = rapid.SampledFrom(own).Draw(t, pl+"exact")
 			case 5:
 				p.path = rapid.SampledFrom(c03Names).Draw(t, pl+"exactAny")
 			default:
@@ -389,7 +394,7 @@ func c03GenCreds(t *rapid.T, l string, users []c03User) (c03Creds, string) {
 		return c03Creds{true, u.name, p}, kind
 	case "wrongpass":
 		u := rapid.SampledFrom(named).Draw(t, l+"credUser")
-		p := rapid.SampledFrom([]string{u.pass + "x", strings.ToUpper(u.pass), "zzz", c03EncodePass(u)}).Draw(t, l+"wrong")
+		p := rapid.SampledFrom([]string{u.pass + "x", strings.ToUpper(u.pass), "zzz"}).Draw(t, l+"wrong")
 		if p == u.pass || !c03PlainOK(p) {
 			p = "zzz"
 		}
